@@ -637,6 +637,18 @@ fn file_cases<T: SerdeAPI + PartialEq + Clone + Norm>(kind: &str, id: &str, obj:
             (Err(_), Err(_)) => { o.b("file_ok", false); }
             (a, b) => { fails.push(format!("{}: to_file/from_file(.{}) {} but the in-memory {} round trip {}", kind, ext, if a.is_ok() { "succeeds" } else { "fails" }, f.name(), if b.is_ok() { "succeeds" } else { "fails" })); o.b("file_ok", a.is_ok()); }
         }
+        // the two entry points of a format are ONE format: what the string / byte API wrote is read by from_file, and what
+        // to_file wrote is read by the string / byte API
+        if let (Ok(_), Ok(enc)) = (&via_mem, encode(obj, f)) {
+            let bytes: Vec<u8> = match &enc { Enc::S(s) => s.as_bytes().to_vec(), Enc::B(b) => b.clone() };
+            let p2 = dir.join(format!("cross.{}", ext));
+            let a = std::fs::write(&p2, &bytes).ok().and_then(|_| catch(AssertUnwindSafe(|| T::from_file(&p2))).ok()).map(|r| r.is_ok()).unwrap_or(false);
+            let b = catch(AssertUnwindSafe(|| obj.to_file(&p2))).ok().and_then(|r| r.ok()).and_then(|_| std::fs::read(&p2).ok())
+                .map(|raw| match f { Fmt::Bin => decode::<T>(&Enc::B(raw), f).is_ok(), _ => decode::<T>(&Enc::S(String::from_utf8_lossy(&raw).to_string()), f).is_ok() }).unwrap_or(false);
+            let _ = std::fs::remove_file(&p2);
+            if via_file.is_ok() && !a { fails.push(format!("{}: what to_{} wrote cannot be read by from_file(.{})", kind, f.name(), ext)); }
+            if via_file.is_ok() && !b { fails.push(format!("{}: what to_file(.{}) wrote cannot be read by from_{}", kind, ext, f.name())); }
+        }
         let class = class_of(f, &t_orig);
         let (oracle_fail, known) = if fails.is_empty() { (vec![], if via_file.is_err() { class.map(|k| vec![k.to_string()]).unwrap_or_default() } else { vec![] }) } else { (fails, vec![]) };
         // a failure of BOTH paths outside a known class is an oracle failure of the round trip itself
@@ -759,6 +771,35 @@ fn family_track(r: &mut Rng, k: usize, sink: &mut Sink) {
     plain("Vec<Location>", format!("track/{}/locations", k), &[], &locs, sink);
 }
 
+/// the CSV form of a speed trace (`to_csv_file` / `from_csv_file`, the format traces are exchanged in): written onto a path
+/// that already holds an OLDER, LONGER trace, read back, it is the trace that was written - same samples, same count
+fn csv_case(r: &mut Rng, id: String, st: &SpeedTrace, sink: &mut Sink) {
+    let dir = std::env::temp_dir().join(format!("vh_c17_csv_{}", std::process::id()));
+    let _ = std::fs::create_dir_all(&dir);
+    let path = dir.join("trace.csv");
+    let extra = 5 + r.below(10);
+    let older = speed_trace(r, st.len() + extra, 15.0, st.engine_on.is_some());
+    let mut fails = vec![];
+    let res = catch(AssertUnwindSafe(|| -> anyhow::Result<SpeedTrace> { older.to_csv_file(&path)?; st.to_csv_file(&path)?; SpeedTrace::from_csv_file(&path) }));
+    match res {
+        Ok(Ok(back)) => {
+            if back.len() != st.len() { fails.push(format!("speed trace written as CSV over an older file has {} samples when read back, {} were written", back.len(), st.len())); }
+            else {
+                let same = back.time.iter().zip(st.time.iter()).all(|(a, b)| a.value.to_bits() == b.value.to_bits())
+                    && back.speed.iter().zip(st.speed.iter()).all(|(a, b)| a.value.to_bits() == b.value.to_bits());
+                if !same { fails.push("speed trace read back from CSV differs from the one written (time or speed samples)".into()); }
+                if let (Some(a), Some(b)) = (&back.engine_on, &st.engine_on) { if a != b { fails.push("speed trace read back from CSV differs in engine_on".into()); } }
+            }
+        }
+        Ok(Err(e)) => fails.push(format!("speed trace CSV round trip fails: {}", format!("{:#}", e).lines().next().unwrap_or(""))),
+        Err(p) => fails.push(format!("speed trace CSV round trip panics: {}", p)),
+    }
+    let _ = std::fs::remove_file(&path); let _ = std::fs::remove_dir(&dir);
+    let mut o = Outs::new(); o.z("samples", st.len() as i64);
+    sink.put(Case { id, kind: "file_csv".into(), coq: String::new(), outcome: Outcome::Ok(o), tags: vec!["fmt:csv".into(), "type:SpeedTrace".into(), "api:file".into()],
+        input: json!({"samples": st.len()}), oracle_fail: fails, known: vec![], in_domain: true });
+}
+
 fn family_set_speed(r: &mut Rng, k: usize, all_ckpt: bool, sink: &mut Sink) {
     let tt = TrainType::Freight;
     let m = 1 + r.below(3);
@@ -782,6 +823,7 @@ fn family_set_speed(r: &mut Rng, k: usize, all_ckpt: bool, sink: &mut Sink) {
         let mut v = v0;
         for i in 0..st.speed.len() { st.speed[i] = uc::MPS * v; v = (v - 0.08 * (1 + i % 3) as f64).max(0.0); }
     }
+    csv_case(r, format!("setspeed/{}/trace_csv", k), &st, sink);
     let path: Vec<LinkIdx> = (1..=m).map(|i| LinkIdx::new(i as u32)).collect();
     let sim0 = match catch(AssertUnwindSafe(|| tsb.make_set_speed_train_sim(&net, &path, st, save))) { Ok(Ok(s)) => s, _ => return };
     let itag = if rolling { format!("{}|start:rolling_braking_first", itag) } else { itag.to_string() };
